@@ -393,7 +393,16 @@ std::string im_show(int const &v, std::size_t const i)
 
 // ---------------------------------------------------------------- dispatch
 
+std::string handle_inner(std::vector<std::string> const &t);
+
 std::string handle(std::vector<std::string> const &t)
+{
+  c16sm::mismatch.clear();
+  std::string const r{handle_inner(t)};
+  return r + c16sm::mismatch;
+}
+
+std::string handle_inner(std::vector<std::string> const &t)
 {
   if (st == nullptr) st = new state{};
   if (t.empty()) return bad;
@@ -638,6 +647,23 @@ std::string handle(std::vector<std::string> const &t)
     auto const i{to_nat(t[1])};
     if (!i || *i > 64) return bad;
     using im_type = fcppt::container::index_map<int>;
+    {
+      // the map travels through a special member of index_map first (a value: all elements survive); the route is a
+      // function of the index and of the current size, the former value of an assignment target is a longer map
+      im_type routed{vh::sm::checked(
+          c16sm::mismatch,
+          "container::index_map",
+          static_cast<unsigned>(*i * 3U + st->im.impl().size()),
+          st->im,
+          []
+          {
+            im_type o{};
+            o[st->im.impl().size() + 1U] = 7;
+            return o;
+          },
+          [](im_type const &m) { return nl(m.impl()); })};
+      st->im = std::move(routed);
+    }
     if (op == "imget")
     {
       int &r{st->im.get(*i, im_type::insert_function{[] { return gen_next(st->g); }})};
